@@ -244,6 +244,11 @@ def elabBody (A : Arith V) (s : St V) (formals qubits : List String) :
     | some b => (elabBody A s formals qubits rest).map (b :: ·)
     | none => none
 
+/-- the range check of the indexed `measure` branch: the loop over `classical_regs` raises when
+a register called `name` has `j` outside it -/
+def clbitOk (cregs : Regs) (name : String) (j : Nat) : Bool :=
+  !cregs.any fun r => r.1 == name && decide (r.2 ≤ j)
+
 /-- `measure` visitor method -/
 def elabMeasure (s : St V) (q c : Arg) : Option (Op V) :=
   match argIndices s.qregs q with
@@ -256,7 +261,9 @@ def elabMeasure (s : St V) (q c : Arg) : Option (Op V) :=
          if qsz != csz then none else
          (firstIndex s.qregs q.name).map fun o =>
            .measure loc ((List.range qsz).map fun i => (o + i, c.name, i))
-       | some _, some j => some (.measure loc [(loc.headD 0, c.name, j)])   -- `location[0]`
+       | some _, some j =>
+         if clbitOk s.cregs c.name j then some (.measure loc [(loc.headD 0, c.name, j)])   -- `location[0]`
+         else none
        | _, _ => none)
     | _, _ => none
 
